@@ -243,16 +243,20 @@ type dynCase struct {
 }
 
 type dynTarget struct {
-	tag      int
-	baseName string
-	baseVal  uint32
-	register func(val uint32, name string)
-	write    func(val uint32) (xml, json string, xmlBack, jsonBack uint32, err error)
+	tag         int
+	baseName    string
+	baseVal     uint32
+	register    func(val uint32, name string)
+	registerTwo func(v1 uint32, n1 string, v2 uint32, n2 string)
+	write       func(val uint32) (xml, json string, xmlBack, jsonBack uint32, err error)
 }
 
 func dynTargetFor[T ~uint32](tag int, baseName string, baseVal uint32) dynTarget {
 	return dynTarget{tag: tag, baseName: baseName, baseVal: baseVal,
 		register: func(val uint32, name string) { ttlv.RegisterEnum[T](tag, map[T]string{T(val): name}) },
+		registerTwo: func(v1 uint32, n1 string, v2 uint32, n2 string) {
+			ttlv.RegisterEnum[T](tag, map[T]string{T(v1): n1, T(v2): n2})
+		},
 		write: func(val uint32) (string, string, uint32, uint32, error) {
 			x := ttlv.MarshalXML(T(val))
 			j := ttlv.MarshalJSON(T(val))
@@ -292,7 +296,8 @@ func TestDynamic(t *testing.T) {
 	for h, c := range cases {
 		tg := targets[h%len(targets)]
 		val := func(slot int) uint32 { return 0x80000000 + uint32(h)*4 + uint32(slot) }
-		name := func(slot int) string { return fmt.Sprintf("VendorExt%d_%d", h, slot) }
+		name := func(id int) string { return fmt.Sprintf("VendorExt%d_%d", h, id) }
+		nm := map[int]int{1: 1, 2: 2} // the name id each slot carries (exchanged by swap)
 		var probs []string
 		func() {
 			defer func() {
@@ -305,19 +310,28 @@ func TestDynamic(t *testing.T) {
 				at := fmt.Sprintf("step %d %s(%d)", k+1, s.Op, s.Slot)
 				switch s.Op {
 				case "register":
-					tg.register(val(s.Slot), name(s.Slot))
+					tg.register(val(s.Slot), name(nm[s.Slot]))
+				case "swap":
+					nm[1], nm[2] = nm[2], nm[1]
+					tg.registerTwo(val(1), name(nm[1]), val(2), name(nm[2]))
 				case "by-name":
 					v, err := ttlv.EnumByName(tg.tag, name(s.Slot))
-					if s.Obs == "value" && (err != nil || v != val(s.Slot)) {
-						probs = append(probs, fmt.Sprintf("registered-name-not-resolved:%s: %v %#x", at, err, v))
-					} else if s.Obs == "unknown" && err == nil {
+					var want int
+					if n, _ := fmt.Sscanf(s.Obs, "value:%d", &want); n == 1 {
+						if err != nil || v != val(want) {
+							probs = append(probs, fmt.Sprintf("registered-name-not-resolved:%s: %v %#x (want %#x)", at, err, v, val(want)))
+						}
+					} else if err == nil {
 						probs = append(probs, fmt.Sprintf("unregistered-name-resolved:%s: %#x", at, v))
 					}
 				case "by-value":
 					n := ttlv.EnumName(tg.tag, val(s.Slot))
-					if s.Obs == "name" && n != name(s.Slot) {
-						probs = append(probs, fmt.Sprintf("registered-value-without-name:%s: %q", at, n))
-					} else if s.Obs == "none" && n != "" {
+					var want int
+					if k, _ := fmt.Sscanf(s.Obs, "name:%d", &want); k == 1 {
+						if n != name(want) {
+							probs = append(probs, fmt.Sprintf("registered-value-without-its-name:%s: %q (want %q)", at, n, name(want)))
+						}
+					} else if n != "" {
 						probs = append(probs, fmt.Sprintf("unregistered-value-named:%s: %q", at, n))
 					}
 				case "base-by-name":
@@ -330,15 +344,18 @@ func TestDynamic(t *testing.T) {
 					}
 				case "write":
 					x, j, bx, bj, err := tg.write(val(s.Slot))
-					byName := strings.Contains(x, name(s.Slot)) && strings.Contains(j, name(s.Slot))
+					var want int
+					k, _ := fmt.Sscanf(s.Obs, "name:%d", &want)
+					byName := k == 1 && strings.Contains(x, name(want)) && strings.Contains(j, name(want))
+					anyName := strings.Contains(x, "VendorExt") || strings.Contains(j, "VendorExt")
 					switch {
 					case err != nil:
 						probs = append(probs, fmt.Sprintf("written-form-not-read-back:%s: %v (xml %s)", at, err, x))
 					case bx != val(s.Slot) || bj != val(s.Slot):
 						probs = append(probs, fmt.Sprintf("read-back-differs:%s: %#x %#x", at, bx, bj))
-					case s.Obs == "by-name" && !byName:
-						probs = append(probs, fmt.Sprintf("registered-value-not-written-by-name:%s: %s", at, x))
-					case s.Obs == "hex" && byName:
+					case k == 1 && !byName:
+						probs = append(probs, fmt.Sprintf("registered-value-not-written-by-its-name:%s: %s", at, x))
+					case s.Obs == "hex" && anyName:
 						probs = append(probs, fmt.Sprintf("unregistered-value-written-by-name:%s", at))
 					}
 				}
